@@ -76,7 +76,8 @@ vars == <<backend, mode, S, D, h, t, dev, rows, bad, k, out, ix>>
 (* index labellings of the pandas frame; rows 1 and 2 share a label in the "dup" kinds *)
 (* ... and COLUMN labellings: the columns a, b named by strings (all kinds above), by the integers 0, 1 ("intcols") *)
 (* or by tuples, i.e. two-level MultiIndex columns ("tuplecols"); nothing in the design reads the labels either     *)
-IxKinds(b, n) == IF b = "pandas" THEN (IF n >= 2 THEN {"unique", "dup", "multi", "multidup"} ELSE {"unique"}) \cup {"intcols", "tuplecols"}
+(* "multits": a MultiIndex one level of which holds timestamps                                                        *)
+IxKinds(b, n) == IF b = "pandas" THEN (IF n >= 2 THEN {"unique", "dup", "multi", "multidup"} ELSE {"unique"}) \cup {"intcols", "tuplecols", "multits"}
                  ELSE {"unique"}
 LabelOf(ixk, i) == IF ixk \in {"dup", "multidup"} THEN (i + 1) \div 2 ELSE i + 10
 DedupByLabel(ixk, rws) == {i \in rws : ~\E j \in rws : j < i /\ LabelOf(ixk, j) = LabelOf(ixk, i)}
@@ -132,13 +133,17 @@ ShippedKept ==
   ELSE LET badlabels == {LabelOf(ix, j) : j \in bad}          \* DropByLabelRemovesValidRows: survivors are chosen by label
        IN SetToSeq({i \in DOMAIN D.a : LabelOf(ix, i) \notin badlabels})
 
+(* deviation DropEvalsMultiIndexLabels: drop_invalid_rows rebuilds MultiIndex labels by eval() of their printed form, *)
+(* which is not an expression for timestamps, timedeltas or NaN: validate dies with NameError                          *)
+ShippedDropLeaks == backend = "pandas" /\ mode = "drop" /\ ix = "multits" /\ bad # {}
 Emit == Done =>
   PrintT(ToJson([kind |-> "rows", backend |-> backend, mode |-> mode, schema |-> S, a |-> D.a, b |-> D.b,
                  head |-> h, tail |-> t, ix |-> ix, expect |-> out,
-                 asis |-> IF mode = "subsample" THEN ShippedVerdict ELSE out.kind,
+                 asis |-> IF mode = "subsample" THEN ShippedVerdict ELSE IF ShippedDropLeaks THEN "Leak:NameError" ELSE out.kind,
                  asis_kept |-> IF mode = "drop" THEN ShippedKept ELSE <<>>,
                  devs |-> (IF mode = "subsample" /\ ShippedVerdict # out.kind
                            THEN {IF backend = "polars" THEN "PolarsSubsampleDedupByValue" ELSE "SubsampleDedupByLabel"} ELSE {})
-                          \cup (IF mode = "drop" /\ ShippedKept # out.kept
+                          \cup (IF ShippedDropLeaks THEN {"DropEvalsMultiIndexLabels"} ELSE {})
+                          \cup (IF mode = "drop" /\ ~ShippedDropLeaks /\ ShippedKept # out.kept
                                 THEN {IF backend = "polars" THEN "PolarsDropKeepsJointDuplicates" ELSE "DropByLabelRemovesValidRows"} ELSE {})]))
 =============================================================================
